@@ -187,7 +187,7 @@ def run_case(case):
         elif pr["async"] != (pr["client"] or "").endswith("AsyncClient"):
             bad("client-kind-mismatch", {"service": pr["service"], "kind": pr["kind"], "rpc": pr["rpc"], "client": pr["client"]})
     sig = {"tags": sorted(api.tags), "transport": case["transport"], "internal": case["internal"]}
-    return {"verdict": "violated" if viol else "held", "violations": viol[:20], "evaluations": counters.get("metadata_rpc_entries", 0) + counters.get("fixup_rows", 0),
+    return {"verdict": "violated" if viol else "held", "violations": pipeline.diverse(viol, 40), "evaluations": counters.get("metadata_rpc_entries", 0) + counters.get("fixup_rows", 0),
             "nontrivial_sigs": [] if viol else [sig], "counters": counters,
             "sample": {"transport": case["transport"], "internal": case["internal"], "services": {k: sorted(v.get("clients", {})) for k, v in meta.get("services", {}).items()},
                        "fixup_row": (list(table.items())[0] if table else None)}}
